@@ -4,6 +4,7 @@ package checks
 
 import (
 	"fmt"
+	"net/url"
 	"sort"
 	"strings"
 	"time"
@@ -123,6 +124,64 @@ func buildOps() []hop {
 		ops = append(ops, hop{fmt.Sprintf("suite-parse-%d", k), suiteObs(n), shapeOfRef(rs).sig() + "|" + n})
 	}
 	ops = append(ops, hop{"list-suites", func() (string, []string) { return sortedSuites(), nil }, sortedSuites()})
+	// the rest of the API: anything lazily built, cached or shared in these functions is state too
+	urlOp := func(name, kind string, up otp.URLParam) {
+		ops = append(ops, hop{name, func() (string, []string) {
+			var u *url.URL
+			var err error
+			if kind == "totp" {
+				u, err = otp.GenerateTOTPURL(up)
+			} else {
+				u, err = otp.GenerateHOTPURL(up)
+			}
+			if err != nil {
+				return "err", nil
+			}
+			back, err := otp.ParseOTPAuthURL(u)
+			if err != nil {
+				return "parse-err", nil
+			}
+			return fmt.Sprintf("%s|%s|%s|%d|%d|%d", back.Issuer, back.AccountName, back.Secret, back.Digits, back.Algorithm, back.Period), []string{back.Issuer, back.AccountName, u.String()}
+		}, fmt.Sprintf("%s|%s|%s|%d|%d|%d", up.Issuer, up.AccountName, up.Secret, up.Digits, up.Algorithm, map[string]uint{"totp": up.Period, "hotp": 30}[kind])})
+	}
+	urlOp("url-totp", "totp", otp.URLParam{Issuer: "My Company", AccountName: "alice+x@example.com", Secret: hopSec, Digits: 8, Algorithm: otp.SHA256, Period: 60})
+	urlOp("url-hotp", "hotp", otp.URLParam{Issuer: "a/b", AccountName: "bob smith", Secret: "JBSWY3DPEHPK3PXP", Digits: 6, Algorithm: otp.SHA512})
+	for i, sp := range []string{hopSec, strings.ToLower(hopSec), " " + ref.B32Encode([]byte("another key 12345")) + "\n"} {
+		want, _ := ref.B32Classify(sp)
+		_ = want
+		_, wb := ref.B32Classify(sp)
+		sp := sp
+		ops = append(ops, hop{fmt.Sprintf("decode-secret-%d", i), func() (string, []string) {
+			b, err := otp.DecodeSecret(sp)
+			return fmt.Sprintf("%x|%s", b, errStr(err)), nil
+		}, fmt.Sprintf("%x|<nil>", wb)})
+	}
+	ops = append(ops, hop{"decode-secret-bad", func() (string, []string) {
+		_, err := otp.DecodeSecret("MZXW6YTB0")
+		return fmt.Sprint(err != nil), nil
+	}, "true"})
+	for _, a := range []int{0, 2} {
+		a := a
+		ops = append(ops, hop{fmt.Sprintf("random-secret-%d", a), func() (string, []string) {
+			s, err := otp.RandomSecret(otp.Algorithm(a))
+			b, derr := otp.DecodeSecret(s)
+			return fmt.Sprint(len(s), len(b), err, derr, s == strings.ToUpper(s)), []string{s}
+		}, fmt.Sprint([]int{32, 0, 103}[a], []int{20, 0, 64}[a], nil, nil, true)})
+	}
+	q1, _ := ref.DecimalQuestion("12345678")
+	q2, _ := ref.DecimalQuestion("99999999999999999999")
+	ops = append(ops, hop{"helpers-a", func() (string, []string) {
+		c, e1 := otp.ParseDecimalChallengeRFC6287("12345678")
+		t, e2 := otp.ParseHexTimestamp("132d0b6")
+		h, e3 := otp.HexInputToOCRA("0000000000000001", "3132333435363738", "", "abcd", "")
+		return fmt.Sprintf("%x|%x|%x%x%x|%v%v%v|%s", c, t, h.Counter, h.Challenge, h.SessionInfo, e1, e2, e3, otp.LeftPadHex("abc", 8)), nil
+	}, fmt.Sprintf("%x|%x|%x%x%x|%v%v%v|%s", q1, be8(0x132d0b6), be8(1), []byte("12345678"), []byte{0xab, 0xcd}, nil, nil, nil, "00000abc")})
+	ops = append(ops, hop{"helpers-b", func() (string, []string) {
+		c, e1 := otp.ParseDecimalChallengeRFC6287("99999999999999999999")
+		d, e2 := otp.ParseDecimalToBigEndian8("18446744073709551615")
+		_, e3 := otp.ParseDecimal64BigEndian("18446744073709551616")
+		return fmt.Sprintf("%x|%x|%v%v%v|%x", c, d, e1, e2, e3 != nil, otp.To8ByteBigEndian(1<<40)), nil
+	}, fmt.Sprintf("%x|%x|%v%v%v|%x", q2, be8(^uint64(0)), nil, nil, true, be8(1<<40))})
 	return ops
 }
 
